@@ -39,9 +39,13 @@ fn deep() -> bool { std::env::var("VERIF_COMPANION_DEEP").is_ok() }
 // ---------------------------------------------------------------- instrumented output
 #[derive(Default)]
 struct RecOut { data: Vec<u8>, pos: u64, seek_target: Option<u64>, writes: Vec<(u64, Vec<u8>)>, write_limit: Option<usize>,
+               reads: usize, fail_read: Option<usize> /* the k-th poll_read (0-based) fails */,
                cap: usize /* max bytes accepted per poll_write (0 = no cap): an AsyncWrite may take only part of a buffer */ }
 impl AsyncRead for RecOut {
     fn poll_read(mut self: Pin<&mut Self>, _cx: &mut Context<'_>, buf: &mut ReadBuf<'_>) -> Poll<std::io::Result<()>> {
+        let k = self.reads;
+        self.reads += 1;
+        if self.fail_read == Some(k) { return Poll::Ready(Err(std::io::ErrorKind::Other.into())); }
         let p = (self.pos as usize).min(self.data.len());
         let k = (self.data.len() - p).min(buf.remaining());
         buf.put_slice(&self.data[p..p + k]);
@@ -97,10 +101,13 @@ fn chunk_bytes(id: usize, size: usize) -> Vec<u8> {
 }
 fn verified(id: usize, size: usize) -> VerifiedChunk { VerifiedChunk::new(Chunk::from(chunk_bytes(id, size))) }
 
-struct Outcome { writes: Vec<(u64, Vec<u8>)>, data: Vec<u8>, fetched: Vec<usize>, err: Option<String> }
+struct Outcome { writes: Vec<(u64, Vec<u8>)>, data: Vec<u8>, fetched: Vec<usize>, err: Option<String>, reads: usize }
 
 /// clone_archive's flow over the library API.  `write_limit`: the output fails every write after that many (crash model).
 fn run_clone(sc: &Scenario, prior_bytes: Vec<u8>, scan: &[(usize, u64)], write_limit: Option<usize>) -> Outcome {
+    run_clone_f(sc, prior_bytes, scan, write_limit, None)
+}
+fn run_clone_f(sc: &Scenario, prior_bytes: Vec<u8>, scan: &[(usize, u64)], write_limit: Option<usize>, fail_read: Option<usize>) -> Outcome {
     let rt = tokio::runtime::Builder::new_current_thread().build().unwrap();
     rt.block_on(async {
         let size_of = |id: usize| if id < sc.sizes.len() { sc.sizes[id] } else { 3 + id };
@@ -117,7 +124,7 @@ fn run_clone(sc: &Scenario, prior_bytes: Vec<u8>, scan: &[(usize, u64)], write_l
         for &(id, o) in scan {
             output_index.add_chunk(verified(id, size_of(id)).hash().clone(), size_of(id), &[o]);
         }
-        let out = RecOut { data: prior_bytes, write_limit, cap: sc.cap, ..Default::default() };
+        let out = RecOut { data: prior_bytes, write_limit, fail_read, cap: sc.cap, ..Default::default() };
         let mut output = CloneOutput::new(out, clone_index);
         let mut err = None;
         let mut fetched = vec![];
@@ -141,7 +148,7 @@ fn run_clone(sc: &Scenario, prior_bytes: Vec<u8>, scan: &[(usize, u64)], write_l
         }
         let mut out = output.into_inner();
         if err.is_none() { out.data.resize(src_len as usize, 0); }   // set_len(total_source_size)
-        Outcome { writes: out.writes, data: out.data, fetched, err }
+        Outcome { writes: out.writes, data: out.data, fetched, err, reads: out.reads }
     })
 }
 
@@ -301,6 +308,15 @@ fn c05_crash_and_rerun() {
         let (prior_bytes, scan, source_bytes) = layout(&sc);
         let full = run_clone(&sc, prior_bytes.clone(), &scan, None);
         if full.err.is_some() || full.data != source_bytes { witness("C03", "uninterrupted run is wrong", format!("{:?}", sc)); }
+        // a failing read of the output (the executor reads chunks it moves or buffers): the run must not end in success with a
+        // wrong output
+        for k in 0..full.reads {
+            let r = run_clone_f(&sc, prior_bytes.clone(), &scan, None, Some(k));
+            if r.err.is_none() && r.data != source_bytes {
+                witness("C05", "a run with a failed read of the output reported success and the output differs from the source", format!("read {} failed :: {:?}", k, sc));
+            }
+            cases += 1;
+        }
         for k in 0..full.writes.len() {
             let crashed = run_clone(&sc, prior_bytes.clone(), &scan, Some(k));
             if crashed.err.is_none() { witness("C05", "a run whose write failed reported success", format!("write limit {} :: {:?}", k, sc)); }
